@@ -407,7 +407,12 @@ func c12Report(R *ev.Run, dir string, id int, typ, buckets string, lats []time.D
 	enc := vegeta.NewEncoder(f)
 	t0 := time.Date(2024, 3, 1, 12, 0, 0, 0, time.UTC)
 	for i, l := range lats {
-		if err := enc.Encode(&vegeta.Result{Attack: "a", Seq: uint64(i), Code: 200, Timestamp: t0.Add(time.Duration(i) * time.Millisecond), Latency: l}); err != nil {
+		// a mix of successes and failures with repeated error texts: the bucket of a result does not depend on them
+		r := vegeta.Result{Attack: "a", Seq: uint64(i), Code: 200, Timestamp: t0.Add(time.Duration(i) * time.Millisecond), Latency: l}
+		if i%2 == 1 {
+			r.Code, r.Error = 500, "500 Internal Server Error"
+		}
+		if err := enc.Encode(&r); err != nil {
 			f.Close()
 			return "", fmt.Errorf("harness: %w", err)
 		}
@@ -525,8 +530,12 @@ func TestC12(t *testing.T) {
 				pfx = "hist:empty:metrics-json"
 			}
 			m := &vegeta.Metrics{Histogram: &vegeta.Histogram{Buckets: append(vegeta.Buckets(nil), given...)}}
-			for _, l := range lats {
-				m.Add(&vegeta.Result{Code: 200, Latency: l})
+			for i, l := range lats {
+				r := vegeta.Result{Code: 200, Latency: l}
+				if i > 0 {
+					r.Code, r.Error = 0, "dial tcp: connection refused" // repeated error text
+				}
+				m.Add(&r)
 			}
 			m.Close()
 			var buf bytes.Buffer
